@@ -123,31 +123,43 @@ func (s *Scenario) normalise() {
 	}
 }
 
-func (s *Scenario) writeScripts(dir string) {
-	for i, p := range s.Procs {
-		var b strings.Builder
-		if p.Ign {
-			b.WriteString("trap '' TERM\n")
+// body is the shell text process i runs: set-up, a ready marker holding its pid, its children in the
+// background (subshells; a setsid'ed child is a script of its own started through setsid(1)), then sleep or wait.
+func (s *Scenario) body(dir string, i int, files map[string]string) string {
+	p := s.Procs[i]
+	var b strings.Builder
+	if p.Ign {
+		b.WriteString("trap '' TERM\n")
+	}
+	if p.Detached {
+		b.WriteString("exec >/dev/null 2>&1\n")
+	}
+	fmt.Fprintf(&b, "echo $BASHPID > %s/ready_%d\n", dir, i)
+	for j := i + 1; j < len(s.Procs); j++ {
+		if s.Procs[j].Parent != i {
+			continue
 		}
-		if p.Detached {
-			b.WriteString("exec >/dev/null 2>&1\n")
-		}
-		fmt.Fprintf(&b, "echo $$ > %s/ready_%d.tmp && mv %s/ready_%d.tmp %s/ready_%d\n", dir, i, dir, i, dir, i)
-		for j := i + 1; j < len(s.Procs); j++ {
-			if s.Procs[j].Parent == i {
-				if s.Procs[j].Setsid {
-					fmt.Fprintf(&b, "setsid bash %s/p_%d.sh &\n", dir, j)
-				} else {
-					fmt.Fprintf(&b, "bash %s/p_%d.sh &\n", dir, j)
-				}
-			}
-		}
-		if i == 0 && s.MainWait {
-			b.WriteString("wait\n")
+		if s.Procs[j].Setsid {
+			name := fmt.Sprintf("%s/p_%d.sh", dir, j)
+			files[name] = s.body(dir, j, files)
+			fmt.Fprintf(&b, "setsid bash %s &\n", name)
 		} else {
-			fmt.Fprintf(&b, "exec sleep %d.%03d\n", p.LifeMs/1000, p.LifeMs%1000)
+			fmt.Fprintf(&b, "(\n%s) &\n", s.body(dir, j, files))
 		}
-		if err := os.WriteFile(filepath.Join(dir, fmt.Sprintf("p_%d.sh", i)), []byte(b.String()), 0o644); err != nil {
+	}
+	if i == 0 && s.MainWait {
+		b.WriteString("wait\n")
+	} else {
+		fmt.Fprintf(&b, "exec sleep %d.%03d\n", p.LifeMs/1000, p.LifeMs%1000)
+	}
+	return b.String()
+}
+
+func (s *Scenario) writeScripts(dir string) {
+	files := map[string]string{}
+	files[dir+"/p_0.sh"] = s.body(dir, 0, files)
+	for name, text := range files {
+		if err := os.WriteFile(name, []byte(text), 0o644); err != nil {
 			panic(err)
 		}
 	}
@@ -213,24 +225,61 @@ func sigkillPending(pid int) bool {
 	return false
 }
 
+// One pass over /proc serves every scenario that is waiting for a scan: scan returns the result of a pass that
+// started after the call.
+var scanner = struct {
+	mu      sync.Mutex
+	cond    *sync.Cond
+	done    int // completed passes
+	running bool
+	result  map[string][]survivor
+}{}
+
+var markPrefix string
+
 func scan(mark string) []survivor {
-	var out []survivor
+	sc := &scanner
+	sc.mu.Lock()
+	defer sc.mu.Unlock()
+	if sc.cond == nil {
+		sc.cond = sync.NewCond(&sc.mu)
+	}
+	want := sc.done + 1
+	if sc.running {
+		want = sc.done + 2
+	}
+	for sc.done < want {
+		if sc.running {
+			sc.cond.Wait()
+			continue
+		}
+		sc.running = true
+		sc.mu.Unlock()
+		res := fullScan()
+		sc.mu.Lock()
+		sc.result, sc.running = res, false
+		sc.done++
+		sc.cond.Broadcast()
+	}
+	return sc.result[mark]
+}
+
+func fullScan() map[string][]survivor {
+	out := map[string][]survivor{}
 	ents, _ := filepath.Glob("/proc/[0-9]*")
-	needle := "VERIF_MARK=" + mark
+	needle := "VERIF_MARK=" + markPrefix
 	for _, e := range ents {
 		b, err := os.ReadFile(e + "/environ")
 		if err != nil || len(b) == 0 {
 			continue
 		}
-		found := false
-		for _, kv := range strings.Split(string(b), "\x00") {
-			if kv == needle {
-				found = true
-				break
-			}
-		}
-		if !found {
+		k := strings.Index(string(b), needle)
+		if k < 0 || (k > 0 && b[k-1] != 0) {
 			continue
+		}
+		mark := string(b[k+len("VERIF_MARK="):])
+		if z := strings.IndexByte(mark, 0); z >= 0 {
+			mark = mark[:z]
 		}
 		pid, _ := strconv.Atoi(filepath.Base(e))
 		state, pgid, sid, ok := procStat(pid)
@@ -240,12 +289,14 @@ func scan(mark string) []survivor {
 		cl, _ := os.ReadFile(e + "/cmdline")
 		l1, _ := os.Readlink(e + "/fd/1")
 		l2, _ := os.Readlink(e + "/fd/2")
-		out = append(out, survivor{Pid: pid, Pgid: pgid, Sid: sid, State: state,
+		out[mark] = append(out[mark], survivor{Pid: pid, Pgid: pgid, Sid: sid, State: state,
 			Cmd:      strings.TrimSpace(strings.ReplaceAll(string(cl), "\x00", " ")),
 			Dying:    state == "Z" || state == "X" || sigkillPending(pid),
 			Detached: !strings.HasPrefix(l1, "pipe:") && !strings.HasPrefix(l2, "pipe:")})
 	}
-	sort.Slice(out, func(i, j int) bool { return out[i].Pid < out[j].Pid })
+	for _, l := range out {
+		sort.Slice(l, func(i, j int) bool { return l[i].Pid < l[j].Pid })
+	}
 	return out
 }
 
@@ -273,7 +324,7 @@ var markMu sync.Mutex
 func runScenario(s *Scenario, base string) Result {
 	markMu.Lock()
 	markSeq++
-	mark := fmt.Sprintf("c30_%d_%d", os.Getpid(), markSeq)
+	mark := fmt.Sprintf("%s%d", markPrefix, markSeq)
 	markMu.Unlock()
 	dir := filepath.Join(base, mark)
 	if err := os.MkdirAll(dir, 0o755); err != nil {
@@ -318,7 +369,7 @@ func runScenario(s *Scenario, base string) Result {
 				break
 			}
 		}
-		time.Sleep(10 * time.Millisecond)
+		time.Sleep(20 * time.Millisecond)
 	}
 	for _, f := range found {
 		if f.Sid == mySid {
@@ -367,6 +418,7 @@ func fixedScenarios(T int) []Scenario {
 		{Name: "ignore-term", Procs: []Proc{p(0, true, false, false, long)}},
 		{Name: "ignore-term-children-wait", MainWait: true, Procs: []Proc{p(0, true, false, false, 0), p(0, true, false, false, long), p(0, true, false, false, long)}},
 		{Name: "detached-child-ignores-term", Procs: []Proc{p(0, false, false, false, long), p(0, true, true, false, long)}},
+		{Name: "exit-at-once-leaving-detached-child", Procs: []Proc{p(0, false, false, false, 0), p(0, false, true, false, long)}},
 		{Name: "exit-leaving-detached-child", Procs: []Proc{p(0, false, false, false, T/2), p(0, false, true, false, long)}},
 		{Name: "exit-leaving-child-holding-pipes", Procs: []Proc{p(0, false, false, false, T/3), p(0, false, false, false, long)}},
 		{Name: "setsid-child-holding-pipes", Procs: []Proc{p(0, false, false, false, long), p(0, false, false, true, long)}},
@@ -394,11 +446,12 @@ func randomScenario(r *lib.Rng, T int) Scenario {
 func main() {
 	lib.Main("C30", func(c *lib.Ctx) {
 		c.Model("From PlzV Require Import Model.C30.", "C30.case", "C30.check")
-		c.Rule("process trees run as real bash/sleep processes through process.ExecWithTimeout: 12 fixed shapes (plain sleep, SIGTERM ignored, " +
+		c.Rule("process trees run as real bash/sleep processes through process.ExecWithTimeout: 13 fixed shapes (plain sleep, SIGTERM ignored, " +
 			"background children and grandchildren, children holding or detached from the output pipes, setsid escapes, exits at/around the deadline, a 9-process tree) " +
 			"plus random trees of 1-7 processes (parent, trap '' TERM, exec >/dev/null, setsid, life in {0, T/2, T-10, T, T+15, 30 s}, main sleeping or waiting), each with every timeout of the tier. " +
 			"distinct = distinct (tree, timeout); non-trivial = more than one process, or SIGTERM ignored, or a life within 20 ms of the deadline")
 		logging.SetBackend(logcap)
+		markPrefix = fmt.Sprintf("c30_%d_", os.Getpid())
 		_, _, mySid, _ = procStat(os.Getpid())
 		base, err := os.MkdirTemp(c.Out, "c30-")
 		if err != nil {
@@ -439,7 +492,7 @@ func main() {
 		// First pass: all scenarios in parallel (they mostly sleep). The machine may be so loaded that a command is
 		// not even started within its timeout, or that a timer is hundreds of milliseconds late: a scenario whose
 		// processes had not finished their set-up when the first signal was sent, or whose timing was off, is run
-		// again (up to twice) with little else going on, and the LAST attempt is the one that is judged for timing.
+		// again (once; twice in the thorough tier) with little else going on, and the LAST attempt is the one that is judged for timing.
 		// Survivors, missing SIGKILLs and wrong errors count on EVERY attempt.
 		const boundMs, slackMs, modelLatMs = 1030, 500, 400
 		noisy := func(s *Scenario, r Result) bool {
@@ -477,7 +530,7 @@ func main() {
 		}
 		pass(all, 8)
 		reruns := 0
-		for round := 0; round < 2; round++ {
+		for round := 0; round < c.Scale(1, 2); round++ {
 			var again []int
 			for i := range scenarios {
 				if noisy(&scenarios[i], attempts[i][len(attempts[i])-1]) {
@@ -488,7 +541,7 @@ func main() {
 				break
 			}
 			reruns += len(again)
-			pass(again, 3)
+			pass(again, 4)
 		}
 		if reruns > 0 {
 			c.Note("%d re-runs of scenarios whose first attempt was disturbed by machine load (set-up of the process tree unfinished at the first signal, or timers more than %d ms late)", reruns, modelLatMs)
